@@ -307,20 +307,14 @@ class AbstractDateTime(AnyAtomicType):
                 return value
 
             case YearMonthDuration():
-                month = op(self._dt.month - 1, other.months) % 12 + 1
-                year = self._year + op(self._dt.month - 1, other.months) // 12
-                day = adjust_day(year, month, self._dt.day)
-
-                if year > 0:
-                    dt = self._dt.replace(year=year, month=month, day=day)
-                elif isleap(year):
-                    dt = self._dt.replace(year=4, month=month, day=day)
-                else:
-                    dt = self._dt.replace(year=6, month=month, day=day)
+                # months are counted on the astronomical year numbering (0 is 1 BCE)
+                months = (self._year + bool(self._year < 0)) * 12 + self._dt.month - 1
+                year, month = divmod(op(months, other.months), 12)
+                day = adjust_day(year, month + 1, self._dt.day)
+                dt = self._dt.replace(year=4 if isleap(year) else 6, month=month + 1, day=day)
 
                 kwargs = {k: getattr(dt, k) for k in self.pattern.groupindex.keys()}
-                if year <= 0:
-                    kwargs['year'] = year
+                kwargs['year'] = year if year > 0 else year - 1
                 return type(self)(**kwargs)
 
             case _:
